@@ -23,7 +23,7 @@ use std::f64::consts::{PI, TAU};
 pub fn spec() -> Spec {
     Spec {
         id: "C10",
-        rule: "closed sections = envelope of circles r(u) = r_le (1-u) + r_te u + A sin(pi w(u)) (maximum at 28-42% of the camber, |r'| <= 0.6) along a camber arc of length 0.3..300 and curvature x length in [0, 1] (straight in one case of four), thickness 4-25% of the camber length, \
+        rule: "closed sections = envelope of circles r(u) = r_le (1-u) + r_te u + A sin(pi w(u)) (maximum at 28-42% of the camber, |r'| <= 0.6) along a camber arc of length 0.3..300 (one in five 300..30000) and curvature x length in [0, 1] (straight in one case of four), thickness 4-25% of the camber length, \
                edge radii 0.6-6% , 200..3000 boundary points with uneven density, random pose and mirror image, both windings, random start vertex; open sections (trailing cap removed) for the open-edge methods. \
                Configurations: {TMaxFwd, DirectionFwd(+-chord)} x 8 edge locators at either end x {Detect, UpperDir(v)} x core_tol in {1e-3, 1e-4, 1e-5} x camber length. \
                Non-trivial = an accepted analysis with at least 5 stations; distinct = hash of the section parameters and the configuration.",
@@ -31,14 +31,17 @@ pub fn spec() -> Spec {
             "an Err from try_analyze means the method does not accept the section and is not judged (acceptance counts per locator are reported)",
             "tolerances: inscribed-circle clauses 5 x core_tol (5 x its inlier tolerance for what RansacRadiusEdge adds; plus twice the chord sag for an edge point, which may lie on a fitted arc); recovered axis / radius law / thicknesses 4 x (largest chord sag of the sampled boundary) + 10 x core_tol",
             "equivariance is judged on the measurements (maximum thickness, camber length, edge points, gauge thicknesses) with 20 x core_tol + 4 x sag, not on the station lists",
+            "the analysis tolerance is at least twice the largest chord sag of the sampled section (a tolerance below the discretisation error is raised by factors of ten, up to 1e-3 x camber length)",
+            "the clause on the sides of the contact points is judged for stations inside the known camber range, 20 x core_tol away from its ends: at and beyond the ends the inscribed circle touches a whole cap arc and the generator defines no camber direction",
             "step bound: 2000 x (boundary points + camber length / core_tol) ticks of the hooked loops per analysis",
         ],
         streams: vec![
             Stream { name: "closed", quick: 2500, thorough: 120_000, run: run_closed },
             Stream { name: "open", quick: 600, thorough: 20_000, run: run_open },
             Stream { name: "equivariance", quick: 500, thorough: 20_000, run: run_equiv },
+            Stream { name: "front-back", quick: 700, thorough: 25_000, run: run_front_back },
         ],
-        required: vec![("AirfoilGeometry::try_analyze :: every station is an inscribed circle", 500), ("station centres lie on the known camber curve", 500), ("terminates within the step bound", 2000)],
+        required: vec![("finds the same edge point at the front and at the back", 150), ("AirfoilGeometry::try_analyze :: every station is an inscribed circle", 500), ("station centres lie on the known camber curve", 500), ("terminates within the step bound", 2000)],
         exhaustive_note: None,
     }
 }
@@ -224,7 +227,8 @@ fn sag_of(a: &Point2, b: &Point2, mid_true: &Point2) -> f64 {
 
 pub fn make_section(c: &mut Ctx) -> Section {
     let r = &mut c.rng;
-    let len = r.log_range(0.3, 300.0);
+    // one section in five in small units (camber length up to 30000)
+    let len = if r.chance(0.2) { r.log_range(300.0, 30_000.0) } else { r.log_range(0.3, 300.0) };
     let kappa = if r.chance(0.25) { 0.0 } else { r.range(0.05, 1.0) / len };
     let tmax = len * r.range(0.04, 0.25);
     let r_le = len * r.range(0.006, 0.06).min(0.45 * tmax / len);
@@ -342,7 +346,42 @@ fn locator(k: usize, sec: &Section, tol: f64, at_le: bool) -> Box<dyn EdgeLocate
 /// configurations that use only these, so that a finding of one of the other locators is reported
 /// once, against that locator, and not again through everything computed from its output.
 fn robust(k: usize) -> bool {
-    matches!(k, 0 | 1 | 2 | 4 | 7)
+    matches!(k, 0 | 1 | 2 | 4)
+}
+
+/// Locators built on fitting / curvature heuristics (or on random sampling).  Whatever one of these
+/// adds (stations, edge point) is judged with the same clauses as everything else, but the verdict
+/// is reported as one clause per locator, so that the known findings of a heuristic (see
+/// known_findings.json) are one entry each and not one per way in which its output can be off.
+fn heuristic(name: &str) -> bool {
+    matches!(name, "TraceToMaxCurvature" | "ConstRadiusEdge" | "ConvergeTangentEdge" | "RansacRadiusEdge")
+}
+
+#[derive(Default)]
+struct Agg {
+    judged: std::collections::BTreeSet<String>,
+    fails: std::collections::BTreeMap<String, Vec<String>>,
+}
+
+/// judge one clause about what a locator (or the camber extraction) produced
+fn locj(c: &mut Ctx, agg: &mut Agg, who: &str, clause: &str, ok: bool, detail: impl FnOnce() -> String) {
+    if heuristic(who) {
+        agg.judged.insert(who.to_string());
+        c.note(&format!("{who}: clause judged inside the aggregate"));
+        if !ok {
+            c.note(&format!("{who}: {clause} -- failed"));
+            agg.fails.entry(who.to_string()).or_default().push(format!("{clause}: {}", detail()));
+        }
+    } else {
+        c.check("AirfoilGeometry::try_analyze", clause, who, ok, detail);
+    }
+}
+
+fn flush_agg(c: &mut Ctx, agg: Agg) {
+    for who in &agg.judged {
+        let f = agg.fails.get(who);
+        c.check("EdgeLocate", "stations and edge point added by the locator satisfy the inscribed-circle, camber and edge clauses", who, f.is_none(), || f.unwrap().join(" | "));
+    }
 }
 
 /// the tolerance the locator itself works to (for judging what it adds)
@@ -455,6 +494,13 @@ fn pick_config(c: &mut Ctx, closed_only: bool) -> Config {
     Config { orient: c.rng.int(0, 2), le, te, face: c.rng.int(0, 2), tol_rel: *c.rng.pick(&[1e-3, 1e-4, 1e-5]) }
 }
 
+/// the analysis tolerance is kept at or above twice the discretisation error of the sampled section
+fn tol_above_sag(cfg: &mut Config, sec: &Section) {
+    while cfg.tol_rel * sec.len < 2.0 * sec.sag && cfg.tol_rel < 1e-3 {
+        cfg.tol_rel *= 10.0;
+    }
+}
+
 // ---------------------------------------------------------------------------------------------
 // judging one accepted analysis
 
@@ -468,6 +514,7 @@ fn judge(c: &mut Ctx, sec: &Section, section: &Curve2, cfg: &Config, out: &Outco
     if !c.check(api, "at least one station", class, !geo.stations.is_empty(), || "no stations".into()) {
         return;
     }
+    let mut agg = Agg::default();
     // ---- which stations come from the camber extraction and which were added by an edge locator
     let base: std::collections::HashSet<(u64, u64)> = out.base.iter().map(|p| (p.x.to_bits(), p.y.to_bits())).collect();
     let n = geo.stations.len();
@@ -538,7 +585,10 @@ fn judge(c: &mut Ctx, sec: &Section, section: &Curve2, cfg: &Config, out: &Outco
         let dir = sec.to_world(&(sec.c(sc) + sec.t(sc))) - sec.to_world(&sec.c(sc));
         let s1 = cross2(&dir, &(st.contact_pos - ctr));
         let s2 = cross2(&dir, &(st.contact_neg - ctr));
-        if s1 * s2 > 0.0 && s1.abs().min(s2.abs()) > t5 && g.same_side.is_none() {
+        // only where the generator has a camber direction and the disc is bitangent: inside the axis
+        // range, away from its ends (there the disc touches a whole cap arc)
+        let bitangent = sp > 20.0 * tol && sp < sec.len - 20.0 * tol;
+        if bitangent && s1 * s2 > 0.0 && s1.abs().min(s2.abs()) > t5 && g.same_side.is_none() {
             g.same_side = Some(k);
         }
         if sp >= 0.0 && sp <= sec.len && sp + 1.5 * sec.r(sp) < sec.cut {
@@ -554,15 +604,15 @@ fn judge(c: &mut Ctx, sec: &Section, section: &Curve2, cfg: &Config, out: &Outco
         c.maxf(&format!("|distance to section - radius| / core_tol, {cl}"), g.worst_r / tol);
         c.maxf(&format!("contact |distance to centre - radius| / core_tol, {cl}"), g.worst_contact / tol);
         c.maxf(&format!("contact distance to section / core_tol, {cl}"), g.worst_on / tol);
-        c.check(api, "every station is an inscribed circle (distance from the centre to the section equals the radius)", cl, g.worst_r <= t5, || format!("worst |d - r| = {:e} = {:.1} core_tol ({})", g.worst_r, g.worst_r / tol, cfg.name()));
-        c.check(api, "contact points lie on the section", cl, g.worst_on <= t5, || format!("worst distance {:e} = {:.1} core_tol ({})", g.worst_on, g.worst_on / tol, cfg.name()));
-        c.check(api, "contact points are one radius from the centre", cl, g.worst_contact <= t5, || format!("worst {:e} = {:.1} core_tol ({})", g.worst_contact, g.worst_contact / tol, cfg.name()));
-        c.check(api, "contact points lie on opposite sides of the camber direction", cl, g.same_side.is_none(), || format!("station {:?} of {n} ({})", g.same_side, cfg.name()));
+        locj(c, &mut agg, cl, "every station is an inscribed circle (distance from the centre to the section equals the radius)", g.worst_r <= t5, || format!("worst |d - r| = {:e} = {:.1} core_tol ({})", g.worst_r, g.worst_r / tol, cfg.name()));
+        locj(c, &mut agg, cl, "contact points lie on the section", g.worst_on <= t5, || format!("worst distance {:e} = {:.1} core_tol ({})", g.worst_on, g.worst_on / tol, cfg.name()));
+        locj(c, &mut agg, cl, "contact points are one radius from the centre", g.worst_contact <= t5, || format!("worst {:e} = {:.1} core_tol ({})", g.worst_contact, g.worst_contact / tol, cfg.name()));
+        locj(c, &mut agg, cl, "contact points lie on opposite sides of the camber direction", g.same_side.is_none(), || format!("station {:?} of {n} ({})", g.same_side, cfg.name()));
         if g.inside >= 1 {
             c.maxf(&format!("centre distance to the known camber / delta, {cl}"), g.worst_axis / delta);
             c.maxf(&format!("radius error against the law / delta, {cl}"), g.worst_law / delta);
-            c.check(api, "station centres lie on the known camber curve", cl, g.worst_axis <= delta, || format!("worst distance {:e}, delta {:e} (sag {:e}, core_tol {:e}) ({})", g.worst_axis, delta, sec.sag, tol, cfg.name()));
-            c.check(api, "station radii follow the known radius law", cl, g.worst_law <= delta, || format!("worst error {:e}, delta {:e} ({})", g.worst_law, delta, cfg.name()));
+            locj(c, &mut agg, cl, "station centres lie on the known camber curve", g.worst_axis <= delta, || format!("worst distance {:e}, delta {:e} (sag {:e}, core_tol {:e}) ({})", g.worst_axis, delta, sec.sag, tol, cfg.name()));
+            locj(c, &mut agg, cl, "station radii follow the known radius law", g.worst_law <= delta, || format!("worst error {:e}, delta {:e} ({})", g.worst_law, delta, cfg.name()));
         }
     }
 
@@ -586,7 +636,7 @@ fn judge(c: &mut Ctx, sec: &Section, section: &Curve2, cfg: &Config, out: &Outco
         }
     }
     let mono_class = if mono_bad.is_some() { group_of(blame).to_string() } else { "camber-extraction".to_string() };
-    c.check(api, "stations advance monotonically from the leading to the trailing edge", &mono_class, mono_bad.is_none(), || {
+    locj(c, &mut agg, &mono_class, "stations advance monotonically from the leading to the trailing edge", mono_bad.is_none(), || {
         format!("station (index, arc position, furthest before) {:?} of {n}, leading edge expected at the {} of the generator ({})", mono_bad, if out.le_is_start { "start" } else { "end" }, cfg.name())
     });
     // maximum thickness
@@ -597,7 +647,7 @@ fn judge(c: &mut Ctx, sec: &Section, section: &Curve2, cfg: &Config, out: &Outco
     let (s_tm, _) = sec.axis_param(&sec.to_local(&tm.circle.center));
     let robust_cfg = robust(cfg.le) && robust(cfg.te);
     if !robust_cfg {
-        c.note("analysis-level clauses not judged: configuration uses ConstRadiusEdge / TraceToMaxCurvature / ConvergeTangentEdge");
+        c.note("analysis-level clauses not judged: configuration uses a heuristic locator");
     }
     if robust_cfg {
         c.check(api, "find_tmax is the largest station and lies at the maximum of the radius law", class, (tm.radius() - sec.r(s_tm.clamp(0.0, sec.len))).abs() <= delta && tm.radius() >= r_max - delta - 0.02 * r_max, || {
@@ -616,7 +666,7 @@ fn judge(c: &mut Ctx, sec: &Section, section: &Curve2, cfg: &Config, out: &Outco
             continue;
         };
         let cam_end = if is_le { geo.camber.at_front().point() } else { geo.camber.at_back().point() };
-        c.check(api, "edge point is the end of the camber curve", LOCATORS[if is_le { cfg.le } else { cfg.te }], (cam_end - e.point).norm() <= section.tol().max(1e-12 * sec.len) * 4.0, || format!("{which}: camber end {:?}, edge point {:?} ({})", cam_end, e.point, cfg.name()));
+        locj(c, &mut agg, LOCATORS[if is_le { cfg.le } else { cfg.te }], "edge point is the end of the camber curve", (cam_end - e.point).norm() <= section.tol().max(1e-12 * sec.len) * 4.0, || format!("{which}: camber end {:?}, edge point {:?} ({})", cam_end, e.point, cfg.name()));
         match e.geometry {
             EdgeGeometry::Open => {
                 // an open edge point is not on the section; it belongs to the requested end
@@ -624,23 +674,25 @@ fn judge(c: &mut Ctx, sec: &Section, section: &Curve2, cfg: &Config, out: &Outco
                 let other = if is_le { geo.stations.last().unwrap() } else { geo.stations.first().unwrap() };
                 let d_own = (e.point - st.circle.center).norm();
                 let d_other = (e.point - other.circle.center).norm();
-                c.check(api, "open edge point belongs to the requested end of the camber", LOCATORS[if is_le { cfg.le } else { cfg.te }], d_own <= d_other, || format!("{which}: {:e} from its own end station, {:e} from the opposite one ({})", d_own, d_other, cfg.name()));
+                locj(c, &mut agg, LOCATORS[if is_le { cfg.le } else { cfg.te }], "open edge point belongs to the requested end of the camber", d_own <= d_other, || format!("{which}: {:e} from its own end station, {:e} from the opposite one ({})", d_own, d_other, cfg.name()));
             }
             _ => {
                 let d = brute_poly2(pts, &e.point).0;
                 c.maxf("edge point distance to section / core_tol", d / tol);
                 let loc_e = if is_le { cfg.le } else { cfg.te };
-                c.check(api, "edge point lies on the section", LOCATORS[loc_e], d <= 5.0 * locator_tol(loc_e, sec, tol) + 2.0 * sec.sag, || format!("{which}: {:e} = {:.1} core_tol from the section ({})", d, d / tol, cfg.name()));
+                locj(c, &mut agg, LOCATORS[loc_e], "edge point lies on the section", d <= 5.0 * locator_tol(loc_e, sec, tol) + 2.0 * sec.sag, || format!("{which}: {:e} = {:.1} core_tol from the section ({})", d, d / tol, cfg.name()));
                 let da = (e.point - apex).norm();
                 c.maxf("edge point distance to the known apex / edge radius", da / edge_r(is_le));
                 let loc = if is_le { cfg.le } else { cfg.te };
                 if matches!(loc, 2 | 4 | 5 | 7) {
                     // these locators intersect the extended camber line with the section
-                    c.check(api, "edge point lies where the extended camber curve leaves the section (within half an edge radius of the apex)", LOCATORS[loc], da <= 0.5 * edge_r(is_le) + delta, || format!("{which}: {:e} from the apex, edge radius {:e} ({})", da, edge_r(is_le), cfg.name()));
+                    locj(c, &mut agg, LOCATORS[loc], "edge point lies where the extended camber curve leaves the section (within half an edge radius of the apex)", da <= 0.5 * edge_r(is_le) + delta, || format!("{which}: {:e} from the apex, edge radius {:e} ({})", da, edge_r(is_le), cfg.name()));
                 }
             }
         }
     }
+
+    flush_agg(c, agg);
 
     // ---- I5: surfaces
     if !robust_cfg {
@@ -677,9 +729,17 @@ fn judge(c: &mut Ctx, sec: &Section, section: &Curve2, cfg: &Config, out: &Outco
             }
         }
         // ---- gauge thicknesses
-        if let Ok(d) = geo.get_thickness_max() {
+        if !(s_tm > 20.0 * tol && s_tm < sec.len - 20.0 * tol) {
+            // the largest circle is an end cap (monotone radius law): its contact points are anywhere on the cap
+            c.skip("AirfoilGeometry::get_thickness_max :: is the contact chord of the largest inscribed circle");
+        } else if let Ok(d) = geo.get_thickness_max() {
+            // the distance between the two contact points of the largest circle: 2 r sqrt(1 - r'^2)
+            // at that station (2 r where the radius law has an interior maximum)
             let v = (d.a - d.b).norm();
-            c.check("AirfoilGeometry::get_thickness_max", "is twice the maximum radius", class, (v - 2.0 * tm.radius()).abs() <= 2.0 * t5 && (v - 2.0 * r_max).abs() <= 2.0 * delta + 0.04 * r_max, || format!("{:e} against 2 x {:e} (law maximum {:e}) ({})", v, tm.radius(), r_max, cfg.name()));
+            let sc = s_tm.clamp(0.0, sec.len);
+            let want = 2.0 * sec.r(sc) * (1.0 - sec.dr(sc).powi(2)).sqrt();
+            c.maxf("get_thickness_max error / (2 delta)", (v - want).abs() / (2.0 * delta));
+            c.check("AirfoilGeometry::get_thickness_max", "is the contact chord of the largest inscribed circle", class, (v - want).abs() <= 2.0 * delta && v <= 2.0 * r_max + 2.0 * delta, || format!("{:e} against {:e} (largest station radius {:e}, law maximum {:e}) ({})", v, want, tm.radius(), r_max, cfg.name()));
         }
         let cl = geo.camber.length();
         for _ in 0..3 {
@@ -735,7 +795,9 @@ fn start_rotated(c: &mut Ctx, pts: &[Point2]) -> Vec<Point2> {
 
 fn run_closed(c: &mut Ctx) {
     let sec = make_section(c);
-    let cfg = pick_config(c, true);
+    let mut cfg = pick_config(c, true);
+    tol_above_sag(&mut cfg, &sec);
+    let cfg = cfg;
     let class = if sec.kappa == 0.0 { "straight-camber" } else { "curved-camber" };
     c.family(&format!("closed/{class}/le={}/te={}", LOCATORS[cfg.le], LOCATORS[cfg.te]));
     c.set_case(json!({"section": sec.json(), "config": cfg.name(), "core_tol_rel": cfg.tol_rel}));
@@ -759,6 +821,7 @@ fn run_open(c: &mut Ctx) {
     // The open end is the trailing cap of the generator.  Either it is the trailing edge of the
     // analysis, or (DirectionFwd pointing the other way) its leading edge: then the open-edge
     // locator works at the front of the station list.
+    tol_above_sag(&mut cfg, &sec);
     let open_is_leading = c.rng.chance(0.4);
     if open_is_leading {
         cfg.orient = 2;
@@ -803,8 +866,9 @@ fn run_equiv(c: &mut Ctx) {
     let sec = make_section(c);
     let mut cfg = pick_config(c, true);
     cfg.tol_rel = *c.rng.pick(&[1e-3, 1e-4]);
-    cfg.le = *c.rng.pick(&[2usize, 4, 7]);
-    cfg.te = *c.rng.pick(&[2usize, 4, 7]);
+    cfg.le = *c.rng.pick(&[2usize, 4]);
+    cfg.te = *c.rng.pick(&[2usize, 4]);
+    tol_above_sag(&mut cfg, &sec);
     let class = if sec.kappa == 0.0 { "straight-camber" } else { "curved-camber" };
     c.family(&format!("equivariance/{class}/le={}/te={}", LOCATORS[cfg.le], LOCATORS[cfg.te]));
     let world = sec.world_points();
@@ -870,4 +934,89 @@ fn run_equiv(c: &mut Ctx) {
     }
     let _ = (a.steps, b.steps);
     c.distinct(&(sec.len.to_bits(), kind, cfg.le, cfg.te));
+}
+
+
+// ---------------------------------------------------------------------------------------------
+// the front flag: a locator must find the same edge at a given physical end of the section whether
+// that end is the leading (front of the station list) or the trailing one (back)
+
+fn run_front_back(c: &mut Ctx) {
+    let sec = make_section(c);
+    let open = c.rng.chance(0.3);
+    let x = if open { c.rng.int(0, 1) } else { *c.rng.pick(&[2usize, 3, 4, 5, 6]) };
+    let other = *c.rng.pick(&[2usize, 4]);
+    let mut base = Config { orient: 1, le: x, te: other, face: c.rng.int(1, 2), tol_rel: *c.rng.pick(&[1e-3, 1e-4]) };
+    tol_above_sag(&mut base, &sec);
+    let class = LOCATORS[x];
+    c.family(&format!("front-back/{class}/{}", if open { "open" } else { "closed" }));
+    c.set_case(json!({"section": sec.json(), "locator": class, "other_locator": LOCATORS[other], "core_tol_rel": base.tol_rel}));
+    let world = sec.world_points();
+    let ctol = 1e-9 * sec.len;
+    // the locator under test works at the start end of the generator (closed sections) or at the
+    // open end (the removed trailing cap)
+    let (section, cfg_front, cfg_back) = if open {
+        let cut = c.rng.range(0.02, 0.1);
+        let keep_u = ((sec.n_upper as f64) * (1.0 - cut)) as usize;
+        let skip_l = ((sec.n_lower as f64) * cut) as usize;
+        let lower_start = sec.n_upper + sec.n_te_cap + skip_l;
+        let mut pts: Vec<Point2> = world[lower_start..].to_vec();
+        pts.extend_from_slice(&world[..keep_u]);
+        let Ok(section) = Curve2::from_points(&pts, ctol, false) else { return };
+        // open end = generator end: trailing when the leading edge is the start (orient 1), leading when orient 2
+        (section, Config { orient: 2, le: x, te: other, ..base.clone() }, Config { orient: 1, le: other, te: x, ..base.clone() })
+    } else {
+        let Ok(section) = Curve2::from_points(&world, ctol, true) else { return };
+        (section, Config { orient: 1, le: x, te: other, ..base.clone() }, Config { orient: 2, le: other, te: x, ..base.clone() })
+    };
+    let a = analyse(c, &sec, &section, &cfg_front, class);
+    let b = analyse(c, &sec, &section, &cfg_back, class);
+    let tol = base.tol_rel * sec.len;
+    let slack = 20.0 * tol + 4.0 * sec.sag;
+    let mut agg = Agg::default();
+    match (a, b) {
+        (None, None) => c.note(&format!("front-back: {class} rejected at both ends")),
+        (Some(_), None) | (None, Some(_)) => {
+            locj(c, &mut agg, class, "accepts the section alike at the front and at the back of the camber line", false, || format!("accepted at one end only ({} / {})", cfg_front.name(), cfg_back.name()));
+        }
+        (Some(a), Some(b)) => {
+            locj(c, &mut agg, class, "accepts the section alike at the front and at the back of the camber line", true, String::new);
+            let (ea, eb) = (&a.geo.leading_edge, &b.geo.trailing_edge);
+            match (ea, eb) {
+                (Some(p), Some(q)) => {
+                    let d = (p.point - q.point).norm();
+                    c.maxf(&format!("front-back edge point difference / slack, {class}"), d / slack);
+                    locj(c, &mut agg, class, "finds the same edge point at the front and at the back of the camber line", d <= slack, || format!("edge points differ by {d:e} (slack {slack:e}): front {:?}, back {:?}", p.point, q.point));
+                    let same_kind = std::mem::discriminant(&p.geometry) == std::mem::discriminant(&q.geometry);
+                    locj(c, &mut agg, class, "reports the same kind of edge geometry at the front and at the back", same_kind, || format!("{:?} / {:?}", p.geometry, q.geometry));
+                }
+                (None, None) => c.note("front-back: edge not located at either end"),
+                _ => {
+                    locj(c, &mut agg, class, "finds the same edge point at the front and at the back of the camber line", false, || "located at one end only".into());
+                }
+            }
+            if c.verbose {
+                for (nm, g) in [("front", &a.geo), ("back", &b.geo)] {
+                    let loc = |p: &Point2| {
+                        let q = sec.to_local(p);
+                        format!("({:.6e}, {:.6e})", q.x, q.y)
+                    };
+                    println!("  {nm}: {} stations; first {} r {:.5e}; last {} r {:.5e}; le {:?} te {:?}", g.stations.len(), loc(&g.stations.first().unwrap().circle.center), g.stations.first().unwrap().radius(), loc(&g.stations.last().unwrap().circle.center), g.stations.last().unwrap().radius(), g.leading_edge.as_ref().map(|e| loc(&e.point)), g.trailing_edge.as_ref().map(|e| loc(&e.point)));
+                }
+            }
+            // the station lists cover the same part of the camber (first / last centres swap roles);
+            // a locator may keep or drop one station more at one end, so the comparison is coarse: it
+            // is there to notice stations added to, or removed from, the wrong end of the list
+            let (fa, la) = (a.geo.stations.first().unwrap().circle.center, a.geo.stations.last().unwrap().circle.center);
+            let (fb, lb) = (b.geo.stations.first().unwrap().circle.center, b.geo.stations.last().unwrap().circle.center);
+            let d = (fa - lb).norm().max((la - fb).norm());
+            locj(c, &mut agg, class, "leaves station lists that mirror each other (within 5% of the camber length)", d <= 0.05 * sec.len, || format!("end stations differ by {d:e}"));
+        }
+    }
+    // for a heuristic locator the verdict joins the aggregate clause of that locator
+    for who in &agg.judged {
+        let f = agg.fails.get(who);
+        c.check("EdgeLocate", "stations and edge point added by the locator satisfy the inscribed-circle, camber and edge clauses", who, f.is_none(), || f.unwrap().join(" | "));
+    }
+    c.distinct(&(sec.len.to_bits(), x, other, open));
 }
